@@ -260,6 +260,7 @@ def check(col, prog, tier, profile, fixture=None):
     col.rule("W5" + sfx, "begin only +1 or reset by refill; end only changes in refill", floor=10)
     col.rule("W6" + sfx, "signed readers: '-' branch accumulates result*10 - digit, the other + digit", floor=12)
     col.rule("W7" + sfx, "composite readers read components left to right; is_eof = skip whitespace then the flag", floor=9)
+    col.rule("W8" + sfx, "a token loop is left only at a whitespace byte or at end of input (an exhausted window is refilled, not taken for the end of the token)", floor=12)
 
     bodies = reading_bodies(crate, r)
     if len(bodies) < 20:
@@ -284,6 +285,27 @@ def check(col, prog, tier, profile, fixture=None):
                 break
         if inv_ok:
             col.ok("INV" + sfx, b.loc(), fk(b), "%d exit/back-edge states entail begin <= end" % len(ends))
+        # ---- W8: how a token loop may end (the loop may sit in an inlined private helper: fold_token(init, |acc, byte| ..))
+        heads = set()
+        work_ = [I]
+        while work_:
+            x_ = work_.pop()
+            heads |= {x_.uid(h_) for h_ in x_.loop_entry}
+            work_.extend(getattr(x_, "inlined_subs", []))
+        if is_token_reader and heads:
+            bad = None
+            n_exit = 0
+            for st in I.final_states:
+                if not any(e.kind == "loop" for e in st.event_list()):
+                    continue
+                n_exit += 1
+                if not _token_end_justified(st, heads, r):
+                    bad = st
+                    break
+            if bad is not None:
+                col.violation("W8" + sfx, "%s|token-end" % fk(b), b.loc(), "%s can finish a token on a path that saw neither a whitespace byte nor end of input after its loop (the window was merely exhausted): a token that straddles two deliveries of the source is cut in two" % b.path, {"facts": [(f[0], tstr(f[1])[:120], f[2]) for f in bad.facts if f[0] != "imp"][:30], "path": bad.path_list()})
+            elif n_exit:
+                col.ok("W8" + sfx, b.loc(), "%s|token-end" % fk(b), "%d exit path(s): whitespace seen or eof set" % n_exit)
         # ---- W1 / W1b / W2b / W5 from events
         seen = set()
         allst = I.final_states + I.diverged + [s for l in I.backedge_states.values() for s in l]
@@ -392,6 +414,36 @@ def _is_readable_impl(crate, b):
     return imp is not None and (imp.get("trait") or "").endswith("Readable") and b.name == "read"
 
 
+_WS = (9, 10, 11, 12, 13, 32)
+
+
+def _token_end_justified(st, heads, r):
+    """some fact established after the loop was entered says: end-of-input flag set, or the byte under the cursor is
+    whitespace (is_ascii_whitespace true, or the byte equals one of the whitespace codes)"""
+    def after_loop(t):
+        # (memory versions are part of the terms: a load from mphi(head, ..) is a value read after the loop was entered)
+        if not isinstance(t, tuple):
+            return False
+        if t and t[0] in ("mphi", "phi") and len(t) > 1 and t[1] in heads:
+            return True
+        return any(after_loop(x) for x in t)
+
+    for f in st.facts:
+        if f[0] not in ("eq", "ne"):
+            continue
+        t = f[1]
+        if not isinstance(t, tuple) or not after_loop(t):
+            continue
+        truth = (f[0] == "eq") == bool(f[2]) if f[2] in (0, 1) else None
+        if t[0] == "load" and t[2][0] == "field" and t[2][2] == r.EOF and truth is True:
+            return True
+        if t[0] == "call" and "whitespace" in str(t[1]) and truth is True:
+            return True
+        if f[0] == "eq" and f[2] in _WS and any(x[0] == "load" and x[2][0] == "index" for x in subterms(t) if isinstance(x, tuple) and len(x) > 2 and isinstance(x[2], tuple)) and t[0] == "load":
+            return True
+    return False
+
+
 def _token_at_eof_facts(I, facts, mem, r, rp, z):
     """the path has the end-of-input flag set while a token reader still wants bytes: the caller asked
     for a token at end of input, which the property's domain excludes"""
@@ -467,6 +519,9 @@ def _refill_rules(col, cx, r, sfx):
         if not reads:
             col.violation("W2" + sfx, "%s|no-read" % fk(b), b.loc(), "refill returns without eof set and without reading from the source")
             continue
+        if not (("eq", eof0, 0) in st.facts or ("ne", eof0, 1) in st.facts):
+            col.violation("W2" + sfx, "%s|reads-after-eof" % fk(b), b.loc(), "refill reads from the source on a path that has not established eof == false: end of input is not latched, a source that delivers again after a zero-length read changes what was reported as the end")
+            continue
         nread += 1
         rd = reads[-1]
         compact = ("eq", ("bin", "Ne", beg0, mk_int(0)), 1) in st.facts
@@ -498,7 +553,16 @@ def _refill_rules(col, cx, r, sfx):
                 col.violation("W2" + sfx, "%s|compaction" % fk(b), b.loc(), "refill with begin != 0 must move the unconsumed window to offset 0 (copy_within(begin..end, 0); end -= begin; begin = 0) before reading: unconsumed bytes are lost or the window is misplaced")
         else:
             if cw or pre_stores:
-                col.violation("W2" + sfx, "%s|no-compaction-needed" % fk(b), b.loc(), "refill with begin == 0 must not move the window")
+                # the move done unconditionally: copy_within(begin..end, 0); end -= begin; begin = 0 is the identity for begin == 0
+                vals = {e.place[2]: e.val for e in pre_stores if e.place[0] == "field"}
+                uncond = len(cw) == 1 and cw[0].args[1][0] == "agg" and cw[0].args[1][2] == (beg0, end0) and cw[0].args[2] == mk_int(0) and evs.index(cw[0]) < evs.index(rd) \
+                    and cw[0].args[0][0] == "ref" and buf_field(cw[0].args[0][1], r) == ("field", rp, r.BUF) \
+                    and set(vals) <= {r.BEGIN, r.END} and util.lin_equal(vals.get(r.END, mk_int(-1)), ("bin", "Sub", end0, beg0)) and vals.get(r.BEGIN) == mk_int(0)
+                if uncond:
+                    col.ok("W2" + sfx, b.loc(cw[0].bb), "%s|compaction" % fk(b), "copy_within(begin..end, 0); end -= begin; begin = 0 before the read, whatever begin is")
+                    compact = True
+                else:
+                    col.violation("W2" + sfx, "%s|no-compaction-needed" % fk(b), b.loc(), "refill with begin == 0 must not move the window")
         # slice handed to the source: buf[end_now..]
         end_now = I.load(rd.state[1], ("field", rp, r.END))
         a1 = rd.args[1]
